@@ -1,26 +1,50 @@
 (* Proofs/YamlEditPrintable.v — Set and Delete keep the tree inside the class of trees that yaml.v3 writes back
-   with every comment in place: no line comment on a block collection. *)
+   with every comment on its line ([printable]: no line comment on a block collection; a key carries a line comment
+   only if its value is a scalar or a non-empty block collection).  `env set` keeps it too; `env rm` keeps it when it
+   deletes from the root of the definition, and breaks it when it deletes on the node under "values" (witness at the
+   end: the last value below `values: # comment` is removed). *)
 From Coq Require Import Lia ZifyNat ZifyBool.
 From Verif Require Import Base.Bytes Model.YamlEdit Proofs.YamlEditBase Proofs.YamlEditProofs Proofs.YamlEditNorm
-  Proofs.YamlEditSeq.
+  Proofs.YamlEditRec Proofs.YamlEditSeq.
 Local Open Scope Z_scope.
 
-Lemma printable_unfold n : printable n = lc_ok n && forallb printable (ncontent n).
+Lemma lc_ok_shell n : lc_ok (with_content n []) = lc_ok n.
 Proof. now destruct n. Qed.
+
+Lemma printable_unfold n : printable n = lc_ok n && keys_lc_ok n && forallb printable (ncontent n).
+Proof. destruct n as [k t s v h l f c]. cbn [printable ncontent]. now rewrite <- (lc_ok_shell (Node k t s v h l f c)). Qed.
+
+Lemma printable_parts n :
+  printable n = true -> lc_ok n = true /\ keys_lc_ok n = true /\ forallb printable (ncontent n) = true.
+Proof.
+  rewrite printable_unfold. intros H. apply andb_true_iff in H as [H H3]. apply andb_true_iff in H as [H1 H2]. auto.
+Qed.
+
+Lemma printable_intro n :
+  lc_ok n = true -> keys_lc_ok n = true -> forallb printable (ncontent n) = true -> printable n = true.
+Proof. intros H1 H2 H3. now rewrite printable_unfold, H1, H2, H3. Qed.
 
 Lemma lc_ok_with_content n c : lc_ok (with_content n c) = lc_ok n.
 Proof. now destruct n. Qed.
 
-Lemma lc_ok_promote a n : lc_ok (promote a n) = lc_ok n.
-Proof. destruct n as [[] ? ? ? ? ? ? ?]; destruct a; reflexivity. Qed.
+Lemma lc_ok_promote a n : lc_ok n = true -> lc_ok (promote a n) = true.
+Proof.
+  destruct n as [[] ? s ? ? l ? ?]; destruct a; auto; unfold lc_ok; cbn; intros H; rewrite H; apply orb_true_r.
+Qed.
 
-Lemma printable_set_hc h n : printable (set_hc h n) = printable n.
+Lemma keys_lc_ok_with_content n c :
+  keys_lc_ok (with_content n c) = match nkind n with KMap => entries_ok c | _ => true end.
 Proof. now destruct n. Qed.
 
-Lemma printable_hc_first h c : forallb printable (hc_first h c) = forallb printable c.
+(* a node that differs from a printable one only in tag, style, value and comments is printable when its own line
+   comment is in order *)
+Lemma printable_same_content n m :
+  nkind m = nkind n -> ncontent m = ncontent n -> lc_ok m = true -> printable n = true -> printable m = true.
 Proof.
-  destruct c as [|c0 r]; [reflexivity|]. cbn [hc_first].
-  destruct (String.eqb (nhc c0) ""); [|reflexivity]. cbn [forallb]. now rewrite printable_set_hc.
+  intros Hk Hc Hl Hn. destruct (printable_parts _ Hn) as (_ & H2 & H3).
+  apply printable_intro; auto.
+  - unfold keys_lc_ok in *. now rewrite Hk, Hc.
+  - now rewrite Hc.
 Qed.
 
 Lemma testbit_flow_lor st : st_flow (N.lor st 32) = true.
@@ -29,28 +53,367 @@ Proof. unfold st_flow. rewrite N.lor_spec. replace (N.testbit 32 5) with true by
 Lemma st_flow_ldiff st : st_flow (N.ldiff st 1) = st_flow st.
 Proof. unfold st_flow. rewrite N.ldiff_spec. replace (N.testbit 1 5) with false by reflexivity. apply andb_true_r. Qed.
 
+Lemma key_lc_ok_set_hc h k v : key_lc_ok (set_hc h k) v = key_lc_ok k v.
+Proof. now destruct k. Qed.
+
+Lemma printable_set_hc h n : printable (set_hc h n) = printable n.
+Proof. now destruct n. Qed.
+
+Lemma entries_ok_hc_first h c : entries_ok (hc_first h c) = entries_ok c.
+Proof.
+  destruct c as [|c0 [|v r]]; try reflexivity; cbn [hc_first]; destruct (String.eqb (nhc c0) ""); try reflexivity.
+  cbn [entries_ok]. now rewrite key_lc_ok_set_hc.
+Qed.
+
+Lemma printable_hc_first h c : forallb printable (hc_first h c) = forallb printable c.
+Proof.
+  destruct c as [|c0 r]; [reflexivity|]. cbn [hc_first].
+  destruct (String.eqb (nhc c0) ""); [|reflexivity]. cbn [forallb]. now rewrite printable_set_hc.
+Qed.
+
+(* ---------------- the addressed node ---------------- *)
 Lemma printable_overwrite pr old new :
-  set_params_ok pr = true -> p_lc_move pr = true -> printable new = true ->
+  set_params_ok pr = true -> p_lc_move pr = true -> nkind new <> KZero -> printable new = true ->
   printable (overwrite pr old new) = true.
 Proof.
-  unfold set_params_ok. intros H Hm Hn.
+  unfold set_params_ok. intros H Hm Hnz Hn.
   apply andb_true_iff in H as [H Hst]. apply andb_true_iff in H as [H Hv].
   apply andb_true_iff in H as [H Ht]. apply andb_true_iff in H as [Hc Hk].
-  rewrite printable_unfold in Hn. apply andb_true_iff in Hn as [_ Hkids].
+  destruct (printable_parts _ Hn) as (_ & Hkeys & Hkids).
   unfold overwrite. rewrite Hc, Hk, Ht, Hv, Hm. cbv zeta. cbn [andb].
   set (st := new_style pr old new).
-  rewrite printable_unfold. cbn [ncontent].
-  apply andb_true_iff. split.
-  - unfold lc_ok. cbn [nkind nstyle nlc].
-    destruct (nkind new) eqn:Ekn; cbn [kind_eqb negb andb]; try reflexivity;
-      (destruct (st_flow st) eqn:Ef; cbn [negb andb orb];
-       [now rewrite Ef|];
-       destruct (String.eqb (nlc old) "") eqn:El; cbn [negb andb];
-       [now rewrite Ef, El|];
-       destruct (is_nil (ncontent new)); cbn [negb];
-       [now rewrite testbit_flow_lor|now rewrite Ef]).
-  - match goal with |- forallb printable (if ?b then _ else _) = true => destruct b end;
+  apply printable_intro.
+  - destruct (printable_parts _ Hn) as (Hlcn & _ & _).
+    unfold lc_ok in *. cbn [nkind nstyle nlc].
+    destruct (nkind new) eqn:Ekn; cbn [kind_eqb negb andb orb]; try reflexivity.
+    + congruence.
+    + destruct (st_flow st) eqn:Ef; cbn [negb andb orb]; [now rewrite Ef|].
+      destruct (String.eqb (nlc old) "") eqn:El; cbn [negb andb]; [now rewrite Ef, El|].
+      destruct (is_nil (ncontent new)); cbn [negb]; [now rewrite testbit_flow_lor|now rewrite Ef].
+    + destruct (st_flow st) eqn:Ef; cbn [negb andb orb]; [now rewrite Ef|].
+      destruct (String.eqb (nlc old) "") eqn:El; cbn [negb andb]; [now rewrite Ef, El|].
+      destruct (is_nil (ncontent new)); cbn [negb]; [now rewrite testbit_flow_lor|now rewrite Ef].
+  - unfold keys_lc_ok in *. cbn [nkind ncontent].
+    destruct (nkind new); auto.
+    match goal with |- entries_ok (if ?b then _ else _) = true => destruct b end;
+      [now rewrite entries_ok_hc_first|exact Hkeys].
+  - cbn [ncontent].
+    match goal with |- forallb printable (if ?b then _ else _) = true => destruct b end;
       [now rewrite printable_hc_first|exact Hkids].
+Qed.
+
+(* ---------------- the repair of one key ---------------- *)
+Lemma lc_ok_set_lc_nil n : lc_ok (set_lc "" n) = true.
+Proof. destruct n as [[] ? ? ? ? ? ? ?]; unfold lc_ok; cbn; auto using orb_true_r. Qed.
+
+Lemma fix_key_lc_printable k v :
+  printable k = true -> printable v = true -> nkind v <> KZero ->
+  key_lc_ok (fst (fix_key_lc k v)) (snd (fix_key_lc k v)) = true
+  /\ printable (fst (fix_key_lc k v)) = true /\ printable (snd (fix_key_lc k v)) = true.
+Proof.
+  intros Hk Hv Hz. unfold fix_key_lc.
+  destruct (String.eqb (nlc k) "") eqn:El.
+  { cbn [fst snd]. unfold key_lc_ok. rewrite El. auto. }
+  destruct (is_coll v && negb (is_nil (ncontent v)) && negb (st_flow (nstyle v))) eqn:Eb.
+  { cbn [fst snd]. unfold key_lc_ok. rewrite Eb. rewrite !orb_true_r. auto. }
+  cbn [fst snd]. split; [|split].
+  - unfold key_lc_ok. now destruct k.
+  - apply (printable_same_content k); auto; try (now destruct k). apply lc_ok_set_lc_nil.
+  - set (v1 := if is_coll v && is_nil (ncontent v) then set_style (N.lor (nstyle v) 32) v else v).
+    assert (H1 : nkind v1 = nkind v /\ ncontent v1 = ncontent v /\
+                 (is_coll v = true -> st_flow (nstyle v1) = true)).
+    { subst v1. destruct (is_coll v && is_nil (ncontent v)) eqn:E.
+      - destruct v as [kv t s x h l f c]. cbn. repeat split; auto. intros _. apply testbit_flow_lor.
+      - repeat split; auto. intros Hc. rewrite Hc in *. cbn [andb] in *.
+        destruct (is_nil (ncontent v)); [discriminate|]. cbn [negb andb] in Eb.
+        now destruct (st_flow (nstyle v)). }
+    destruct H1 as (K1 & C1 & F1).
+    assert (Hlc : forall m, nkind m = nkind v -> nstyle m = nstyle v1 -> lc_ok m = true).
+    { intros m Hkm Hsm. unfold lc_ok. rewrite Hkm, Hsm. unfold is_coll in F1.
+      destruct (nkind v); try congruence; auto; now rewrite F1. }
+    match goal with |- printable (if ?b then _ else _) = true => destruct b end.
+    + apply (printable_same_content v); auto; try (destruct v1; cbn in *; congruence).
+      apply Hlc; destruct v1; cbn in *; congruence.
+    + apply (printable_same_content v); auto.
+Qed.
+
+(* the entries of a mapping after the repair of the entry of [key], given that every other entry was in order *)
+Lemma fix_entry_printable_found key k v r :
+  String.eqb (nvalue k) key = true -> printable k = true -> printable v = true -> nkind v <> KZero ->
+  entries_ok r = true -> forallb printable r = true ->
+  entries_ok (fix_entry key (k :: v :: r)) = true /\ forallb printable (fix_entry key (k :: v :: r)) = true.
+Proof.
+  intros E Hk Hv Hz Hr Hpr. unfold fix_entry. cbn [norm_entry]. rewrite E.
+  destruct (fix_key_lc_printable k v Hk Hv Hz) as (A & B & C).
+  destruct (fix_key_lc k v) as [k' v']. cbn [fst snd] in *. cbn. now rewrite A, B, C, Hr, Hpr.
+Qed.
+
+Lemma fix_entry_other key k v r :
+  String.eqb (nvalue k) key = false -> fix_entry key (k :: v :: r) = k :: v :: fix_entry key r.
+Proof. intros E. unfold fix_entry. cbn [norm_entry]. now rewrite E. Qed.
+
+Lemma upd_key_printable key f l l' :
+  entries_ok l = true -> forallb printable l = true ->
+  (forall v v', In v (vals_of l) \/ v = zero_node -> f v = Ok v' -> printable v' = true /\ nkind v' <> KZero) ->
+  upd_key key f l = Ok l' ->
+  entries_ok (fix_entry key l') = true /\ forallb printable (fix_entry key l') = true.
+Proof.
+  revert l'. induction l as [| k0 | k0 v0 r IH] using pair_ind; intros l' He Hp Hf H; cbn [upd_key] in H.
+  - apply rmap_ok in H. destruct H as (v' & Hfv & ->).
+    destruct (Hf zero_node v') as [P1 P2]; auto.
+    apply fix_entry_printable_found; auto. cbn. apply String.eqb_refl.
+  - discriminate.
+  - cbn in He, Hp. apply andb_true_iff in He as [He1 He2].
+    apply andb_true_iff in Hp as [Hp1 Hp]. apply andb_true_iff in Hp as [Hp2 Hp3].
+    destruct (String.eqb (nvalue k0) key) eqn:E; apply rmap_ok in H.
+    + destruct H as (v' & Hfv & ->). destruct (Hf v0 v') as [P1 P2]; auto. { left. now left. }
+      apply fix_entry_printable_found; auto.
+    + destruct H as (r' & Hr & ->). rewrite fix_entry_other by auto.
+      destruct (IH r' He2 Hp3) as [A B]; auto.
+      { intros v v' [Hin| ->]; apply Hf; auto. left. now right. }
+      cbn. now rewrite He1, Hp1, Hp2, A, B.
+Qed.
+
+Lemma del_key_printable pr key f l l' :
+  entries_ok l = true -> forallb printable l = true ->
+  (forall v v', In v (vals_of l) -> f v = Ok v' -> printable v' = true /\ nkind v' <> KZero) ->
+  del_key pr key false f l = Ok l' ->
+  entries_ok (fix_entry key l') = true /\ forallb printable (fix_entry key l') = true.
+Proof.
+  revert l'. induction l as [| k0 | k0 v0 r IH] using pair_ind; intros l' He Hp Hf H; cbn [del_key] in H.
+  - destruct (p_del_missing pr); cbn in H; try discriminate. inversion H. auto.
+  - discriminate.
+  - cbn in He, Hp. apply andb_true_iff in He as [He1 He2].
+    apply andb_true_iff in Hp as [Hp1 Hp]. apply andb_true_iff in Hp as [Hp2 Hp3].
+    destruct (String.eqb (nvalue k0) key) eqn:E; apply rmap_ok in H.
+    + destruct H as (v' & Hfv & ->). destruct (Hf v0 v') as [P1 P2]; auto. { now left. }
+      apply fix_entry_printable_found; auto.
+    + destruct H as (r' & Hr & ->). rewrite fix_entry_other by auto.
+      destruct (IH r' He2 Hp3) as [A B]; auto.
+      { intros v v' Hin. apply Hf. now right. }
+      cbn. now rewrite He1, Hp1, Hp2, A, B.
+Qed.
+
+Lemma entries_ok_del_pair key l : entries_ok l = true -> entries_ok (del_pair key l) = true.
+Proof.
+  induction l as [| k0 | k0 v0 r IH] using pair_ind; cbn; auto.
+  intros H. apply andb_true_iff in H as [H1 H2]. destruct (String.eqb (nvalue k0) key); auto.
+  cbn. now rewrite H1, IH.
+Qed.
+
+Lemma printable_del_pair key l : forallb printable l = true -> forallb printable (del_pair key l) = true.
+Proof.
+  induction l as [| k0 | k0 v0 r IH] using pair_ind; cbn; auto.
+  intros H. apply andb_true_iff in H as [H1 H]. apply andb_true_iff in H as [H2 H3].
+  destruct (String.eqb (nvalue k0) key); auto. cbn. now rewrite H1, H2, IH.
+Qed.
+
+(* the children of a well-formed root are well-formed roots; a zero root has none *)
+Lemma wf_root_children n c : wf_root n = true -> In c (ncontent n) -> wf_root c = true.
+Proof.
+  intros Hw Hin. destruct (wf_root_cases _ Hw) as [[_ Hnil]|Hwn]; [rewrite Hnil in Hin; contradiction|].
+  apply wf_wf_root. eapply forallb_In; [apply wf_content_all|]; eauto.
+Qed.
+
+Lemma wf_root_entries n : wf_root n = true -> nkind (n) <> KMap -> nkind n <> KZero \/ ncontent n = [].
+Proof. intros Hw _. destruct (wf_root_cases _ Hw) as [[_ Hnil]|Hwn]; auto. left. now destruct (wf_not_zero _ Hwn). Qed.
+
+(* the entries of the mapping Set / Delete continue in: those of the node itself, or none for a zero node *)
+Lemma promoted_entries a n :
+  wf_root n = true -> printable n = true -> nkind (promote a n) = KMap -> entries_ok (ncontent n) = true.
+Proof.
+  intros Hw Hp Hk. destruct (wf_root_cases _ Hw) as [[_ Hnil]|Hwn]; [now rewrite Hnil|].
+  destruct (wf_not_zero _ Hwn) as [Hz _]. rewrite promote_kind in Hk by auto.
+  destruct (printable_parts _ Hp) as (_ & H2 & _). unfold keys_lc_ok in H2. now rewrite Hk in H2.
+Qed.
+
+(* ---------------- Set ---------------- *)
+Lemma yset_ok_kind pr a p new n n' :
+  yset pr (a :: p) new n = Ok n' ->
+  (exists key, a = AKey key /\ nkind (promote a n) = KMap) \/ (exists i, a = AIdx i /\ nkind (promote a n) = KSeq).
+Proof.
+  intros H. destruct (yset_cases _ _ _ _ _ H) as (n0 & H0 & _). cbn [yset0] in H0. cbv zeta in H0.
+  destruct (nkind (promote a n)); try discriminate; destruct a; try discriminate; eauto.
+Qed.
+
+Theorem set_printable pr p new n n' :
+  set_params_ok pr = true -> p_lc_move pr = true -> p_key_lc pr = true -> wf_root n = true -> wf new = true ->
+  printable n = true -> printable new = true -> yset pr p new n = Ok n' -> printable n' = true.
+Proof.
+  intros Hp Hm Hkl. revert n n'. induction p as [|a p IH]; intros n n' Hw Hwn Hn Hnew H.
+  - rewrite yset_nil in H. inversion H. apply printable_overwrite; auto. now destruct (wf_not_zero _ Hwn).
+  - destruct (printable_parts _ Hn) as (Hlc & Hkeys & Hkids).
+    assert (Hchild : forall c c', In c (ncontent n) \/ c = zero_node -> yset pr p new c = Ok c' ->
+                                  printable c' = true /\ nkind c' <> KZero).
+    { intros c c' Hc0 Hc.
+      assert (Hwc : wf_root c = true) by (destruct Hc0 as [Hin| ->]; [eapply wf_root_children; eauto|reflexivity]).
+      split.
+      - destruct Hc0 as [Hin| ->]; eapply IH; try exact Hc; auto. eapply forallb_In; eauto.
+      - now destruct (wf_not_zero _ (set_wf pr p new c c' Hp Hwc Hwn Hc)). }
+    destruct (yset_ok_kind _ _ _ _ _ _ H) as [(key & -> & Hk)|(i & -> & Hk)].
+    + rewrite yset_cons_map in H by auto. apply rmap_ok in H. destruct H as (c' & Hu & ->).
+      unfold fix_key_at. rewrite Hkl, with_content_content, with_content_twice.
+      destruct (upd_key_printable key (yset pr p new) (ncontent n) c') as [A B]; auto.
+      * eapply promoted_entries; eauto.
+      * intros v v' [Hin| ->]; apply Hchild; auto. left. now apply vals_of_in.
+      * apply printable_intro.
+        -- rewrite lc_ok_with_content. now apply lc_ok_promote.
+        -- now rewrite keys_lc_ok_with_content, Hk.
+        -- now rewrite with_content_content.
+    + rewrite yset_cons_seq in H by auto.
+      destruct ((i <? 0) || (len (ncontent n) <? i)); [discriminate|].
+      apply rmap_ok in H. destruct H as (c2 & Hu & ->).
+      apply printable_intro.
+      * rewrite lc_ok_with_content. now apply lc_ok_promote.
+      * now rewrite keys_lc_ok_with_content, Hk.
+      * rewrite with_content_content. eapply upd_nth_forallb; [| |exact Hu].
+        -- destruct (i =? len (ncontent n)); auto. now rewrite forallb_app, Hkids.
+        -- intros c c' Hin Hc. eapply Hchild; [|exact Hc].
+           destruct (i =? len (ncontent n)); auto.
+           apply in_app_or in Hin. destruct Hin as [Hin|[<-|[]]]; auto.
+Qed.
+
+(* ---------------- Delete ---------------- *)
+Lemma ydelete_ok_kind pr a p n n' :
+  ydelete pr (a :: p) n = Ok n' ->
+  (exists key, a = AKey key /\ nkind n = KMap) \/ (exists i, a = AIdx i /\ nkind n = KSeq).
+Proof.
+  intros H. destruct (ydelete_cases _ _ _ _ H) as (n0 & H0 & _). cbn [ydelete0] in H0.
+  destruct (nkind n); try discriminate; destruct a; try discriminate; eauto.
+Qed.
+
+Lemma ydelete_kind pr p n n' : ydelete pr p n = Ok n' -> nkind n' = nkind n.
+Proof.
+  intros H. destruct (ydelete_cases _ _ _ _ H) as (n0 & H0 & Hn').
+  assert (Hk0 : nkind n0 = nkind n).
+  { destruct p as [|a p]; cbn [ydelete0] in H0.
+    - destruct (p_del_empty pr); cbn in H0; try discriminate. congruence.
+    - destruct (nkind n) eqn:Hk; try discriminate; destruct a; try discriminate.
+      + destruct ((i <? 0) || (len (ncontent n) <=? i)); [discriminate|].
+        destruct (is_nil p); [inversion H0; now rewrite with_content_kind|].
+        apply rmap_ok in H0. destruct H0 as (c & _ & ->). now rewrite with_content_kind.
+      + apply rmap_ok in H0. destruct H0 as (c & _ & ->). now rewrite with_content_kind. }
+  destruct Hn' as [->| ->]; [exact Hk0|]. now rewrite norm_path_kind.
+Qed.
+
+Theorem delete_printable pr p n n' :
+  p_key_lc pr = true -> wf_root n = true -> printable n = true -> ydelete pr p n = Ok n' -> printable n' = true.
+Proof.
+  intros Hkl. revert n n'. induction p as [|a p IH]; intros n n' Hw Hn H.
+  - rewrite ydelete_nil in H. cbn in H. destruct (p_del_empty pr); cbn in H; try discriminate. congruence.
+  - destruct (printable_parts _ Hn) as (Hlc & Hkeys & Hkids).
+    destruct p as [|b p].
+    + (* the level that removes the entry *)
+      rewrite ydelete_one in H. cbn [ydelete0] in H.
+      destruct (nkind n) eqn:Hk; try discriminate.
+      * destruct a as [key|i]; [discriminate|].
+        destruct ((i <? 0) || (len (ncontent n) <=? i)); [discriminate|]. cbn [is_nil] in H. inversion H.
+        apply printable_intro.
+        -- now rewrite lc_ok_with_content.
+        -- now rewrite keys_lc_ok_with_content, Hk.
+        -- rewrite with_content_content. now apply forallb_del_nth.
+      * destruct a as [key|i]; [|discriminate]. cbn [is_nil] in H.
+        apply rmap_ok in H. destruct H as (c' & Hd & ->). apply del_key_last_eq in Hd. subst c'.
+        unfold keys_lc_ok in Hkeys. rewrite Hk in Hkeys.
+        apply printable_intro.
+        -- now rewrite lc_ok_with_content.
+        -- rewrite keys_lc_ok_with_content, Hk. now apply entries_ok_del_pair.
+        -- rewrite with_content_content. now apply printable_del_pair.
+    + assert (Hne : b :: p <> []) by discriminate.
+      assert (Hchild : forall c c', In c (ncontent n) -> ydelete pr (b :: p) c = Ok c' ->
+                                    printable c' = true /\ nkind c' <> KZero).
+      { intros c c' Hin Hc. split.
+        - eapply IH; try exact Hc.
+          + eapply wf_root_children; eauto.
+          + eapply forallb_In; eauto.
+        - rewrite (ydelete_kind _ _ _ _ Hc).
+          destruct (wf_root_cases _ Hw) as [[_ Hnil]|Hwn]; [rewrite Hnil in Hin; contradiction|].
+          apply (wf_not_zero c). eapply forallb_In; [apply wf_content_all|]; eauto. }
+      destruct (ydelete_ok_kind _ _ _ _ _ H) as [(key & -> & Hk)|(i & -> & Hk)].
+      * rewrite ydelete_cons_map in H by auto. apply rmap_ok in H. destruct H as (c' & Hu & ->).
+        unfold fix_key_at. rewrite Hkl, with_content_content, with_content_twice.
+        unfold keys_lc_ok in Hkeys. rewrite Hk in Hkeys.
+        destruct (del_key_printable pr key (ydelete pr (b :: p)) (ncontent n) c') as [A B]; auto.
+        { intros v v' Hin. apply Hchild. now apply vals_of_in. }
+        apply printable_intro.
+        -- now rewrite lc_ok_with_content.
+        -- now rewrite keys_lc_ok_with_content, Hk.
+        -- now rewrite with_content_content.
+      * rewrite ydelete_cons_seq in H by auto.
+        destruct ((i <? 0) || (len (ncontent n) <=? i)); [discriminate|].
+        apply rmap_ok in H. destruct H as (c2 & Hu & ->).
+        apply printable_intro.
+        -- now rewrite lc_ok_with_content.
+        -- now rewrite keys_lc_ok_with_content, Hk.
+        -- rewrite with_content_content. eapply upd_nth_forallb; [exact Hkids| |exact Hu].
+           intros c c' Hin Hc. now apply (Hchild c c').
+Qed.
+
+(* ---------------- env set ---------------- *)
+Lemma printable_prep_value secret argtext v :
+  printable v = true -> printable (prep_value secret argtext v) = true.
+Proof.
+  intros Hv. destruct secret; [|exact Hv]. unfold prep_value, secret_wrap, secret_arg.
+  destruct (kind_eqb (nkind v) KScalar && negb (String.eqb (ntag v) str_tag)); cbn; [reflexivity|].
+  unfold key_lc_ok. cbn. now rewrite Hv.
+Qed.
+
+(* Set below a node gives a non-empty collection of the style the node had *)
+Lemma yset_below_nonempty pr a p new v v' :
+  yset pr (a :: p) new v = Ok v' ->
+  is_coll v' = true /\ ncontent v' <> [] /\ nstyle v' = nstyle (promote a v).
+Proof.
+  intros H. destruct (yset_ok_kind _ _ _ _ _ _ H) as [(key & -> & Hk)|(i & -> & Hk)].
+  - rewrite yset_cons_map in H by auto. apply rmap_ok in H. destruct H as (c' & Hu & ->).
+    unfold fix_key_at. set (n1 := promote (AKey key) v) in *.
+    assert (Hc' : c' <> []).
+    { destruct (upd_key_ok _ _ _ _ Hu) as (v0 & w & _ & Hf & _). intros ->. discriminate. }
+    destruct (p_key_lc pr).
+    + rewrite with_content_content, with_content_twice. split; [|split].
+      * unfold is_coll. now rewrite with_content_kind, Hk.
+      * rewrite with_content_content. unfold fix_entry. intros E.
+        apply (f_equal (@length node)) in E. rewrite norm_entry_length in E. destruct c'; [congruence|discriminate].
+      * now destruct n1.
+    + split; [|split].
+      * unfold is_coll. now rewrite with_content_kind, Hk.
+      * now rewrite with_content_content.
+      * now destruct n1.
+  - rewrite yset_cons_seq in H by auto.
+    destruct ((i <? 0) || (len (ncontent v) <? i)); [discriminate|].
+    apply rmap_ok in H. destruct H as (c2 & Hu & ->). set (n1 := promote (AIdx i) v) in *.
+    destruct (upd_nth_length _ _ _ _ Hu) as [Hl Hi]. split; [|split].
+    + unfold is_coll. now rewrite with_content_kind, Hk.
+    + rewrite with_content_content. intros ->. cbn in Hl. lia.
+    + now destruct n1.
+Qed.
+
+Lemma yset_below_key_ok pr a p new k v v' :
+  wf v = true -> yset pr (a :: p) new v = Ok v' -> key_lc_ok k v = true -> key_lc_ok k v' = true.
+Proof.
+  intros Hw H Hk. destruct (yset_below_nonempty _ _ _ _ _ _ H) as (Hc & Hne & Hst).
+  destruct (wf_not_zero _ Hw) as [Hz _]. rewrite promote_kind in Hst by auto.
+  unfold key_lc_ok in *. destruct (String.eqb (nlc k) ""); [reflexivity|]. cbn [orb] in *.
+  apply orb_true_iff in Hk as [Hs|Hb].
+  - (* Set does not continue below a scalar *)
+    exfalso. destruct (yset_ok_kind _ _ _ _ _ _ H) as [(key & _ & Hk')|(i & _ & Hk')];
+      rewrite promote_kind in Hk' by auto; unfold is_scalar in Hs; rewrite Hk' in Hs; discriminate.
+  - apply andb_true_iff in Hb as [Hb Hfl]. rewrite Hc, Hst, Hfl.
+    destruct (ncontent v'); [congruence|]. cbn. apply orb_true_r.
+Qed.
+
+Lemma upd_key_entries_keep key f l l' :
+  entries_ok l = true -> forallb wf l = true ->
+  (forall k v v', wf v = true -> f v = Ok v' -> key_lc_ok k v = true -> key_lc_ok k v' = true) ->
+  upd_key key f l = Ok l' -> entries_ok l' = true.
+Proof.
+  revert l'. induction l as [| k0 | k0 v0 r IH] using pair_ind; intros l' He Hw Hf H; cbn [upd_key] in H.
+  - apply rmap_ok in H. destruct H as (v' & _ & ->). reflexivity.
+  - discriminate.
+  - cbn in He, Hw. apply andb_true_iff in He as [He1 He2].
+    apply andb_true_iff in Hw as [Hw1 Hw]. apply andb_true_iff in Hw as [Hw2 Hw3].
+    destruct (String.eqb (nvalue k0) key); apply rmap_ok in H.
+    + destruct H as (v' & Hfv & ->). cbn. now rewrite (Hf k0 v0 v'), He2.
+    + destruct H as (r' & Hr & ->). cbn. now rewrite He1, (IH r').
 Qed.
 
 Lemma upd_key_forallb (P : node -> bool) key f l l' :
@@ -68,226 +431,94 @@ Proof.
       intros v v' [Hin|Hz]; apply Hf; auto. left. right. now right.
 Qed.
 
-Lemma del_key_forallb (P : node -> bool) pr key last f l l' :
-  forallb P l = true -> (forall v v', In v l -> f v = Ok v' -> P v' = true) ->
-  del_key pr key last f l = Ok l' -> forallb P l' = true.
+Lemma on_values_set_printable pr a p v root root' :
+  set_params_ok pr = true -> p_lc_move pr = true -> p_key_lc pr = true ->
+  wf root = true -> nkind root = KMap -> wf v = true -> printable root = true -> printable v = true ->
+  on_values (yset pr (a :: p) v) root = Ok root' -> printable root' = true.
 Proof.
-  revert l'. induction l as [| k0 | k0 v0 r IH] using pair_ind; intros l' Hl Hf H; cbn in H.
-  - destruct last; [now inversion H|]. destruct (p_del_missing pr); cbn in H; try discriminate. now inversion H.
-  - discriminate.
-  - cbn in Hl. apply andb_true_iff in Hl as [H1 Hl]. apply andb_true_iff in Hl as [H2 H3].
-    destruct (String.eqb (nvalue k0) key).
-    + destruct last; [now inversion H; subst|]. apply rmap_ok in H. destruct H as (v' & Hfv & ->).
-      cbn. rewrite H1, H3, (Hf v0 v'); auto. right. now left.
-    + apply rmap_ok in H. destruct H as (r' & Hr & ->). cbn. rewrite H1, H2. cbn. apply IH; auto.
-      intros v v' Hin. apply Hf. right. now right.
-Qed.
-
-Lemma set_printable_core pr p new n n' :
-  set_params_ok pr = true -> p_lc_move pr = true -> printable n = true -> printable new = true ->
-  yset0 pr p new n = Ok n' -> printable n' = true.
-Proof.
-  intros Hp Hm. revert n n'. induction p as [|a p IH]; intros n n' Hn Hnew H; cbn [yset0] in H.
-  - inversion H. now apply printable_overwrite.
-  - cbv zeta in H. rewrite printable_unfold in Hn. apply andb_true_iff in Hn as [Hlc Hkids].
-    assert (Hz : printable zero_node = true) by reflexivity.
-    destruct (nkind (promote a n)) eqn:Hk; try discriminate.
-    + destruct a as [key|i]; [discriminate|].
-      destruct ((i <? 0) || (len (ncontent (promote (AIdx i) n)) <? i)) eqn:Hb; [discriminate|].
-      apply rmap_ok in H. destruct H as (c2 & Hu & ->).
-      rewrite printable_unfold, lc_ok_with_content, lc_ok_promote, Hlc, with_content_content. cbn [andb].
-      rewrite promote_content in Hu.
-      eapply upd_nth_forallb; [| |exact Hu].
-      * destruct (i =? len (ncontent n)); auto. now rewrite forallb_app, Hkids.
-      * intros c c' Hin Hf. eapply IH; [| |exact Hf]; auto.
-        destruct (i =? len (ncontent n)).
-        -- apply in_app_or in Hin. destruct Hin as [Hin|[<-|[]]]; auto. eapply forallb_In; eauto.
-        -- eapply forallb_In; eauto.
-    + destruct a as [key|i]; [|discriminate].
-      apply rmap_ok in H. destruct H as (c2 & Hu & ->).
-      rewrite printable_unfold, lc_ok_with_content, lc_ok_promote, Hlc, with_content_content. cbn [andb].
-      rewrite promote_content in Hu.
-      eapply upd_key_forallb; [exact Hkids|reflexivity| |exact Hu].
-      intros v v' [Hin| ->] Hf; (eapply IH; [| |exact Hf]; auto). eapply forallb_In; eauto.
-Qed.
-
-Lemma delete_printable_core pr p n n' :
-  printable n = true -> ydelete0 pr p n = Ok n' -> printable n' = true.
-Proof.
-  revert n n'. induction p as [|a p IH]; intros n n' Hn H; cbn [ydelete0] in H.
-  - destruct (p_del_empty pr); cbn in H; try discriminate. congruence.
-  - pose proof Hn as Hn'. rewrite printable_unfold in Hn. apply andb_true_iff in Hn as [Hlc Hkids].
-    destruct (nkind n) eqn:Hk; try discriminate.
-    + destruct a as [key|i]; [discriminate|].
-      destruct ((i <? 0) || (len (ncontent n) <=? i)) eqn:Hb; [discriminate|].
-      destruct (is_nil p).
-      * inversion H. rewrite printable_unfold, lc_ok_with_content, Hlc, with_content_content.
-        now apply forallb_del_nth.
-      * apply rmap_ok in H. destruct H as (c2 & Hu & ->).
-        rewrite printable_unfold, lc_ok_with_content, Hlc, with_content_content. cbn [andb].
-        eapply upd_nth_forallb; [exact Hkids| |exact Hu].
-        intros c c' Hin Hf. eapply IH; [|exact Hf]. eapply forallb_In; eauto.
-    + destruct a as [key|i]; [|discriminate].
-      apply rmap_ok in H. destruct H as (c2 & Hu & ->).
-      rewrite printable_unfold, lc_ok_with_content, Hlc, with_content_content. cbn [andb].
-      eapply del_key_forallb; [exact Hkids| |exact Hu].
-      intros v v' Hin Hf. eapply IH; [|exact Hf]. eapply forallb_In; eauto.
-Qed.
-
-(* the pass over the keys of the path keeps a well-formed tree printable: a line comment lands on a scalar, on a
-   flow collection, or on an empty collection that is marked flow *)
-Lemma printable_fix_key_lc k v :
-  printable k = true -> printable v = true -> nkind v <> KZero -> nkind v <> KDoc ->
-  printable (fst (fix_key_lc k v)) = true /\ printable (snd (fix_key_lc k v)) = true.
-Proof.
-  intros Hk Hv Hz Hd. unfold fix_key_lc.
-  destruct (String.eqb (nlc k) ""); [cbn; auto|].
-  destruct (is_coll v && negb (is_nil (ncontent v)) && negb (st_flow (nstyle v))) eqn:Eb; [cbn; auto|].
-  cbn [fst snd]. split.
-  - destruct k as [kk t s x h l f c]. rewrite printable_unfold in *. cbn [ncontent set_lc] in *.
-    apply andb_true_iff in Hk as [_ Hk]. rewrite Hk, andb_true_r.
-    unfold lc_ok. cbn. destruct kk; auto; apply orb_true_r.
-  - destruct v as [kv t s x h l f c]. rewrite printable_unfold in Hv. cbn [ncontent] in Hv.
-    apply andb_true_iff in Hv as [Hlc Hkids].
-    unfold is_coll in *. cbn [nkind ncontent nstyle] in *.
-    destruct kv; try congruence; cbn [andb] in *.
-    + (* sequence *)
-      destruct c as [|c0 r]; cbn [is_nil negb andb] in *.
-      * cbn. rewrite Bool.orb_true_r || idtac.
-        match goal with |- printable (if ?b then _ else _) = true => destruct b end; cbn;
-          unfold lc_ok; cbn; now rewrite ?testbit_flow_lor.
-      * destruct (st_flow s) eqn:Ef; cbn [negb] in Eb; [|discriminate].
-        match goal with |- printable (if ?b then _ else _) = true => destruct b end;
-          rewrite printable_unfold; cbn [ncontent set_lc]; rewrite Hkids, andb_true_r; unfold lc_ok; cbn;
-          now rewrite Ef.
-    + destruct c as [|c0 r]; cbn [is_nil negb andb] in *.
-      * match goal with |- printable (if ?b then _ else _) = true => destruct b end; cbn;
-          unfold lc_ok; cbn; now rewrite ?testbit_flow_lor.
-      * destruct (st_flow s) eqn:Ef; cbn [negb] in Eb; [|discriminate].
-        match goal with |- printable (if ?b then _ else _) = true => destruct b end;
-          rewrite printable_unfold; cbn [ncontent set_lc]; rewrite Hkids, andb_true_r; unfold lc_ok; cbn;
-          now rewrite Ef.
-    + match goal with |- printable (if ?b then _ else _) = true => destruct b end;
-        rewrite printable_unfold; cbn [ncontent set_lc]; rewrite Hkids, andb_true_r; reflexivity.
-    + match goal with |- printable (if ?b then _ else _) = true => destruct b end;
-        rewrite printable_unfold; cbn [ncontent set_lc]; rewrite Hkids, andb_true_r; reflexivity.
-Qed.
-
-Lemma printable_norm p n : wf n = true -> printable n = true -> printable (norm_path p n) = true.
-Proof.
-  revert n. induction p as [|a p IH]; intros n Hw Hn; [exact Hn|]. cbn [norm_path].
-  rewrite printable_unfold in Hn. apply andb_true_iff in Hn as [Hlc Hkids].
+  intros Hp Hm Hkl Hw Hk Hwv Hr Hv H. unfold on_values in H. apply rmap_ok in H. destruct H as (c' & Hu & ->).
+  destruct (printable_parts _ Hr) as (Hlc & Hkeys & Hkids). unfold keys_lc_ok in Hkeys. rewrite Hk in Hkeys.
   pose proof (wf_content_all _ Hw) as Hall.
-  destruct (nkind n) eqn:Hk; try (now rewrite printable_unfold, Hlc, Hkids);
-    destruct a as [key|i]; try (now rewrite printable_unfold, Hlc, Hkids).
-  - destruct ((i <? 0) || (len (ncontent n) <=? i)); [now rewrite printable_unfold, Hlc, Hkids|].
-    rewrite printable_unfold, lc_ok_with_content, Hlc, with_content_content. cbn [andb].
-    generalize (Z.to_nat i) as j. intros j. revert j Hall Hkids.
-    induction (ncontent n) as [|c r IHl]; intros [|j] Hall Hkids; cbn in *; auto;
-      apply andb_true_iff in Hall as [Hwc Hall]; apply andb_true_iff in Hkids as [Hpc Hkids].
-    + now rewrite IH, Hkids.
-    + now rewrite Hpc, IHl.
-  - rewrite printable_unfold, lc_ok_with_content, Hlc, with_content_content. cbn [andb].
-    revert Hall Hkids. induction (ncontent n) as [| k0 | k0 v0 r IHl] using pair_ind; intros Hall Hkids; cbn; auto.
-    cbn in Hall, Hkids.
-    apply andb_true_iff in Hall as [Hwk Hall]. apply andb_true_iff in Hall as [Hwv Hall].
-    apply andb_true_iff in Hkids as [Hpk Hkids]. apply andb_true_iff in Hkids as [Hpv Hkids].
-    destruct (String.eqb (nvalue k0) key).
-    + destruct (fix_key_lc k0 (norm_path p v0)) as [k' v'] eqn:Ef.
-      assert (Hwn : wf (norm_path p v0) = true) by now rewrite wf_norm.
-      destruct (wf_not_zero _ Hwn) as [Hz Hd].
-      destruct (printable_fix_key_lc k0 (norm_path p v0) Hpk (IH _ Hwv Hpv) Hz Hd) as [P1 P2].
-      rewrite Ef in P1, P2. cbn in P1, P2. cbn. now rewrite P1, P2, Hkids.
-    + cbn. now rewrite Hpk, Hpv, IHl.
-Qed.
-
-Theorem set_printable pr p new n n' :
-  set_params_ok pr = true -> p_lc_move pr = true -> wf_root n = true -> wf new = true ->
-  printable n = true -> printable new = true -> yset pr p new n = Ok n' -> printable n' = true.
-Proof.
-  intros Hp Hm Hw Hwn Hn Hnew H. destruct (yset_cases _ _ _ _ _ H) as (n0 & H0 & [->| ->]).
-  - exact (set_printable_core pr p new n n0 Hp Hm Hn Hnew H0).
-  - apply printable_norm; [exact (set_wf_core pr p new n n0 Hp Hw Hwn H0)|
-                           exact (set_printable_core pr p new n n0 Hp Hm Hn Hnew H0)].
-Qed.
-
-Theorem delete_printable pr p n n' :
-  wf_root n = true -> printable n = true -> ydelete pr p n = Ok n' -> printable n' = true.
-Proof.
-  intros Hw Hn H. destruct (ydelete_cases _ _ _ _ H) as (n0 & H0 & [->| ->]).
-  - exact (delete_printable_core pr p n n0 Hn H0).
-  - assert (Hw0 : wf_root n0 = true) by exact (delete_wf_core pr p n n0 Hw H0).
-    assert (Hp0 : printable n0 = true) by exact (delete_printable_core pr p n n0 Hn H0).
-    destruct (wf_root_cases _ Hw0) as [[Hz _]|Hwf]; [|now apply printable_norm].
-    destruct (removelast p) as [|a q]; [exact Hp0|]. cbn [norm_path]. now rewrite Hz.
-Qed.
-
-Lemma printable_prep_value secret argtext v :
-  printable v = true -> printable (prep_value secret argtext v) = true.
-Proof.
-  intros Hv. destruct secret; [|exact Hv]. unfold prep_value, secret_wrap, secret_arg.
-  destruct (kind_eqb (nkind v) KScalar && negb (String.eqb (ntag v) str_tag)); cbn; now rewrite ?Hv.
+  apply printable_intro.
+  - now rewrite lc_ok_with_content.
+  - rewrite keys_lc_ok_with_content, Hk.
+    eapply upd_key_entries_keep; [exact Hkeys|exact Hall| |exact Hu].
+    intros k x x' Hwx Hx. eapply yset_below_key_ok; eauto.
+  - rewrite with_content_content. eapply upd_key_forallb; [exact Hkids|reflexivity| |exact Hu].
+    intros x x' [Hin| ->] Hx; eapply set_printable; try exact Hx; auto.
+    + apply wf_wf_root. eapply forallb_In; eauto.
+    + eapply forallb_In; eauto.
 Qed.
 
 Theorem env_set_printable pr p v root root' :
-  set_params_ok pr = true -> p_lc_move pr = true -> wf_root root = true -> wf v = true ->
+  set_params_ok pr = true -> p_lc_move pr = true -> p_key_lc pr = true -> wf_root root = true -> wf v = true ->
   printable root = true -> printable v = true ->
   env_set pr p v root = Ok root' -> printable root' = true.
 Proof.
-  intros Hp Hm Hw Hwv Hr Hv H. destruct p as [|a p]; [discriminate|]. unfold env_set in H.
-  destruct (is_imports a); [exact (set_printable pr _ _ _ _ Hp Hm Hw Hwv Hr Hv H)|].
-  destruct (yget [AKey values_key] root); try discriminate; [exact (set_printable pr _ _ _ _ Hp Hm Hw Hwv Hr Hv H)|].
-  destruct (yset pr [AKey values_key] empty_map_node root) as [r1| |] eqn:E1; try discriminate.
-  assert (Hr1 : printable r1 = true)
-    by exact (set_printable pr [AKey values_key] empty_map_node root r1 Hp Hm Hw (eq_refl : wf empty_map_node = true)
-                Hr (eq_refl : printable empty_map_node = true) E1).
-  assert (Hw1 : wf_root r1 = true)
-    by (apply wf_wf_root; exact (set_wf pr _ _ _ _ Hp Hw (eq_refl : wf empty_map_node = true) E1)).
-  exact (set_printable pr _ _ _ _ Hp Hm Hw1 Hwv Hr1 Hv H).
+  intros Hp Hm Hkl Hw Hwv Hr Hv H. destruct p as [|a p]; [discriminate|]. unfold env_set in H.
+  destruct (is_imports a); [exact (set_printable pr _ _ _ _ Hp Hm Hkl Hw Hwv Hr Hv H)|].
+  destruct (yget [AKey values_key] root) eqn:Eg; try discriminate.
+  - pose proof (yget_key_found_kind _ _ _ _ Eg) as Hk.
+    destruct (wf_root_cases _ Hw) as [[Hz _]|Hwn]; [congruence|].
+    exact (on_values_set_printable pr a p v root root' Hp Hm Hkl Hwn Hk Hwv Hr Hv H).
+  - destruct (yset pr [AKey values_key] empty_map_node root) as [r1| |] eqn:E1; try discriminate.
+    assert (Hr1 : printable r1 = true)
+      by exact (set_printable pr [AKey values_key] empty_map_node root r1 Hp Hm Hkl Hw
+                  (eq_refl : wf empty_map_node = true) Hr (eq_refl : printable empty_map_node = true) E1).
+    assert (Hw1 : wf r1 = true) by exact (set_wf pr _ _ _ _ Hp Hw (eq_refl : wf empty_map_node = true) E1).
+    destruct (get_set_empty pr [AKey values_key] empty_map_node root r1 Hp (eq_refl : ncontent empty_map_node = []) E1)
+      as (m & Hm1 & _).
+    exact (on_values_set_printable pr a p v r1 root' Hp Hm Hkl Hw1 (yget_key_found_kind _ _ _ _ Hm1) Hwv Hr1 Hv H).
 Qed.
 
+(* ---------------- env rm ---------------- *)
+(* with the repair (Delete from the root of the definition) *)
 Theorem env_rm_printable pr p root root' :
-  wf_root root = true -> printable root = true -> env_rm pr p root = Ok root' -> printable root' = true.
+  p_key_lc pr = true -> p_rm_root pr = true -> wf_root root = true -> printable root = true ->
+  env_rm pr p root = Ok root' -> printable root' = true.
 Proof.
-  intros Hw Hr H. destruct (env_rm_cases _ _ _ _ H) as [[_ ->]|[[_ Hd]|[_ Hv]]]; auto.
-  - exact (delete_printable pr _ _ _ Hw Hr Hd).
-  - unfold env_rm_values in Hv. destruct (yget [AKey values_key] root); try discriminate; [|congruence].
-    destruct p as [|a p].
-    + destruct (p_del_empty pr); cbn in Hv; try discriminate. congruence.
-    + exact (delete_printable pr _ _ _ Hw Hr Hv).
+  intros Hkl Hrr Hw Hr H. destruct (env_rm_cases _ _ _ _ H) as [[_ ->]|[[_ Hd]|[_ Hv]]]; auto.
+  - exact (delete_printable pr _ _ _ Hkl Hw Hr Hd).
+  - unfold env_rm_values in Hv. rewrite Hrr in Hv.
+    destruct (yget [AKey values_key] root); try discriminate; [|congruence].
+    exact (delete_printable pr _ _ _ Hkl Hw Hr Hv).
 Qed.
 
 Definition op_printable (o : op) : Prop :=
   match o with OSet _ v => wf v = true /\ printable v = true | ORm _ => True end.
 
+Definition printable_params_ok (pr : params) : bool := p_lc_move pr && p_key_lc pr && p_rm_root pr.
+
 Theorem cli_run_printable pr ops t t' :
-  set_params_ok pr = true -> p_lc_move pr = true -> wf_root t = true -> printable t = true ->
+  set_params_ok pr = true -> printable_params_ok pr = true -> wf_root t = true -> printable t = true ->
   Forall op_printable ops -> run (cli_step pr) ops t = Some t' -> printable t' = true.
 Proof.
-  intros Hp Hm. revert t. induction ops as [|o r IH]; intros t Hw Ht Hok H; cbn in H.
+  intros Hp Hpp. unfold printable_params_ok in Hpp.
+  apply andb_true_iff in Hpp as [Hpp Hrr]. apply andb_true_iff in Hpp as [Hm Hkl].
+  revert t. induction ops as [|o r IH]; intros t Hw Ht Hok H; cbn in H.
   - now inversion H; subst.
   - inversion Hok as [|? ? Ho Hrest]; subst. destruct (cli_step pr o t) eqn:E; try discriminate; eauto.
     destruct o as [p v|p]; cbn in E, Ho.
     + destruct Ho as [Hwv Hpv]. apply (IH a); auto.
       * apply wf_wf_root. exact (env_set_wf pr _ _ _ _ Hp Hw Hwv E).
-      * exact (env_set_printable pr _ _ _ _ Hp Hm Hw Hwv Ht Hpv E).
+      * exact (env_set_printable pr _ _ _ _ Hp Hm Hkl Hw Hwv Ht Hpv E).
     + apply (IH a); auto.
       * exact (env_rm_wf pr _ _ _ Hw E).
-      * exact (env_rm_printable pr _ _ _ Hw Ht E).
+      * exact (env_rm_printable pr _ _ _ Hkl Hrr Hw Ht E).
 Qed.
 
 Theorem api_run_printable pr ops t t' :
-  set_params_ok pr = true -> p_lc_move pr = true -> wf_root t = true -> printable t = true ->
+  set_params_ok pr = true -> p_lc_move pr = true -> p_key_lc pr = true -> wf_root t = true -> printable t = true ->
   Forall op_printable ops -> run (api_step pr) ops t = Some t' -> printable t' = true.
 Proof.
-  intros Hp Hm. revert t. induction ops as [|o r IH]; intros t Hw Ht Hok H; cbn in H.
+  intros Hp Hm Hkl. revert t. induction ops as [|o r IH]; intros t Hw Ht Hok H; cbn in H.
   - now inversion H; subst.
   - inversion Hok as [|? ? Ho Hrest]; subst. destruct (api_step pr o t) eqn:E; try discriminate; eauto.
     destruct o as [p v|p]; cbn in E, Ho.
     + destruct Ho as [Hwv Hpv]. apply (IH a); auto.
       * apply wf_wf_root. exact (set_wf pr _ _ _ _ Hp Hw Hwv E).
-      * exact (set_printable pr _ _ _ _ Hp Hm Hw Hwv Ht Hpv E).
+      * exact (set_printable pr _ _ _ _ Hp Hm Hkl Hw Hwv Ht Hpv E).
     + apply (IH a); auto.
       * exact (delete_wf pr _ _ _ Hw E).
-      * exact (delete_printable pr _ _ _ Hw Ht E).
+      * exact (delete_printable pr _ _ _ Hkl Hw Ht E).
 Qed.
